@@ -60,7 +60,8 @@ class QueryPlanner:
         if isinstance(predictor_metadata, list):
             # convert to dict
             for predictor in predictor_metadata:
-                if 'integration_name' in predictor:
+                # `integration_name: None` says the same as leaving the key out
+                if predictor.get('integration_name') is not None:
                     integration_name = predictor['integration_name']
                 else:
                     integration_name = self.predictor_namespace
@@ -73,7 +74,7 @@ class QueryPlanner:
             # legacy behaviour
             for name, predictor in predictor_metadata.items():
                 if '.' not in name:
-                    if 'integration_name' in predictor:
+                    if predictor.get('integration_name') is not None:
                         integration_name = predictor['integration_name']
                     else:
                         integration_name = self.predictor_namespace
@@ -81,6 +82,10 @@ class QueryPlanner:
                         predictor = dict(predictor, integration_name=integration_name)
                     name = f'{integration_name}.{name}'.lower()
                     _projects.add(integration_name.lower())
+                elif predictor.get('integration_name') is None:
+                    # 'project.model': the project is part of the name (get_predictor_namespace_and_name_from_identifier
+                    # reads it from the entry)
+                    predictor = dict(predictor, integration_name=name.rsplit('.', 1)[0])
 
                 self.predictor_info[name] = predictor
 
